@@ -12,4 +12,6 @@ func locksHeld() int { return 0 }
 
 func setLockBlocker(f func(cond func() bool)) {}
 
+func setSpawner(f func(func())) {}
+
 const injected = false
